@@ -786,6 +786,19 @@ func Differential(base, mod *Run) []Finding {
 		}
 		return out
 	}
+	if base.Env.Scn.RootFail {
+		unitOf := func(r *Run) int {
+			for _, inj := range r.Env.Injected {
+				if matchInjected(r.Err, inj) {
+					return inj.Unit
+				}
+			}
+			return -1
+		}
+		if ub, um := unitOf(base), unitOf(mod); ub >= 0 && um >= 0 && ub != um {
+			add("one worker and only dependency-free tasks fail: base-mode code returned the error of task unit %d, modifier-mode code that of task unit %d (the first failing task in enqueue order ends the flow: the two modes enqueue in different orders)", ub, um)
+		}
+	}
 	// both failed: the modifier-mode error must be one of ITS injected faults of
 	// the same kind (unit) as some fault of the base run
 	ok := false
